@@ -401,11 +401,30 @@ impl Execute for ast::Pipeline {
         // Update exit status.
         shell.set_last_exit_status(result.exit_code.into());
 
+        // bash checks errexit (and fires the ERR trap) when a simple command, a subshell, an
+        // arithmetic or conditional command, or a multi-command pipeline fails -- not when a brace
+        // group, loop, `if` or `case` merely passes on the status of its last command (which was
+        // checked, or was exempt, where it ran).
+        let is_errexit_checkpoint = self.seq.len() != 1
+            || !matches!(
+                &self.seq[0],
+                ast::Command::Compound(
+                    ast::CompoundCommand::BraceGroup(_)
+                        | ast::CompoundCommand::IfClause(_)
+                        | ast::CompoundCommand::ForClause(_)
+                        | ast::CompoundCommand::ArithmeticForClause(_)
+                        | ast::CompoundCommand::WhileClause(_)
+                        | ast::CompoundCommand::UntilClause(_)
+                        | ast::CompoundCommand::CaseClause(_),
+                    _
+                )
+            );
+
         // Fire the ERR trap if the pipeline failed in a non-conditional context.
         // We reuse `suppress_errexit` here because bash suppresses the ERR trap in
         // exactly the same contexts it suppresses errexit (conditionals, `!`-prefixed
         // pipelines, etc.).
-        if !result.is_success() && !params.suppress_errexit && !self.bang {
+        if !result.is_success() && !params.suppress_errexit && !self.bang && is_errexit_checkpoint {
             if shell.traps().handles(crate::traps::TrapSignal::Err) {
                 shell
                     .invoke_trap_handler(crate::traps::TrapSignal::Err, &params)
@@ -414,7 +433,7 @@ impl Execute for ast::Pipeline {
         }
 
         // Apply errexit if not suppressed (and not negated)
-        if !params.suppress_errexit && !self.bang {
+        if !params.suppress_errexit && !self.bang && is_errexit_checkpoint {
             shell.apply_errexit_if_enabled(&mut result);
         }
 
